@@ -17,6 +17,7 @@ Checks(ev) ==
       want == HashInput(Qid, Rp, g)
   IN << <<"pre.params", Jac2(ev.sp) = E2!ScalarMul(s, Pp) /\ E2!OnCurve(Pp) /\ E2!ScalarMul(RMod, Pp) = <<>> /\ Pp # <<>>>>,
         <<"identity-point", Qid \in IdPoints(ev.idhash) /\ E1!ScalarMul(RMod, Qid) = <<>>>>,
+        <<"identity-overlapping-storage", ~Has(ev.out, "id_overlap") \/ Aff1(ev.out.id_overlap) = Qid>>,
         <<"secret-key", Aff1(ev.out.sk) = E1!ScalarMul(s, Qid)>>,
         <<"ciphertext", Rp = E2!ScalarMul(rho, Pp)>>,
         <<"one-hash-call-each", ev.out.hash_calls = 2>>,
